@@ -140,6 +140,51 @@ func (e *Eng) RangeOver(l *Loop) (coll string, kind string) {
 	return "", ""
 }
 
+// IndexLoopFrom recognises "for i := start; i < len(x); i++" and returns x and start.
+func (e *Eng) IndexLoopFrom(l *Loop) (coll, start string, ok bool) {
+	h := l.Header
+	if len(h.Instrs) == 0 {
+		return "", "", false
+	}
+	iff, isIf := h.Instrs[len(h.Instrs)-1].(*ssa.If)
+	if !isIf {
+		return "", "", false
+	}
+	c, isB := iff.Cond.(*ssa.BinOp)
+	if !isB || c.Op != token.LSS {
+		return "", "", false
+	}
+	phi, isP := c.X.(*ssa.Phi)
+	call, isC := c.Y.(*ssa.Call)
+	if !isP || !isC || phi.Block() != h {
+		return "", "", false
+	}
+	if b, isBu := call.Call.Value.(*ssa.Builtin); !isBu || b.Name() != "len" {
+		return "", "", false
+	}
+	var init ssa.Value
+	step := false
+	for i, ed := range phi.Edges {
+		if l.Blocks[h.Preds[i].Index] {
+			// from inside the loop: must be phi+1
+			bo, ok := ed.(*ssa.BinOp)
+			if !ok || bo.Op != token.ADD || bo.X != ssa.Value(phi) || !isIntConst(bo.Y, 1) {
+				return "", "", false
+			}
+			step = true
+		} else {
+			if init != nil && init != ed {
+				return "", "", false
+			}
+			init = ed
+		}
+	}
+	if !step || init == nil {
+		return "", "", false
+	}
+	return e.X(l.Fn, call.Call.Args[0]), e.X(l.Fn, init), true
+}
+
 // isInduction recognises i (manual loop: phi(0, i+1)) and i+1 (range lowering: phi(-1, i+1) + 1).
 func isInduction(v ssa.Value) bool {
 	if b, ok := v.(*ssa.BinOp); ok && b.Op == token.ADD {
